@@ -153,6 +153,16 @@ func c03History(t *testing.T, rng *rand.Rand) (viols [][2]string, stats map[stri
 				pr := rng.Intn(3) == 0
 				step = fmt.Sprintf("leave(self,%d,prune=%v)", claim, pr)
 				nd.NotifyMsg(wire.Encode(wire.Leave, &wire.MsgLeave{LTime: claim, Node: "self", Prune: pr}))
+				if rng.Intn(3) == 0 && claim < math.MaxUint64-10 {
+					// a state sync lands right behind the claim (no quiescence in between: the refutation
+					// the claim started may not have run yet); the peer already knows a newer status time
+					// of this node, which must not keep the refutation from going out
+					st := claim + 1 + uint64(rng.Intn(3))
+					pp := &wire.MsgPushPull{LTime: 1, StatusLTimes: map[string]uint64{"self": st, "other": 1}, EventLTime: 1, QueryLTime: 1}
+					nd.ML.Delegate.MergeRemoteState(wire.Encode(wire.PushPull, pp), false)
+					step += fmt.Sprintf("+merge(self=%d)", st)
+					stats["claims_followed_by_immediate_merge"]++
+				}
 			case x < 12:
 				// claim inside a state sync: self on the left list => synthetic leave at statusLTime+1
 				sl := pickLT()
